@@ -132,6 +132,24 @@ class RespRun:
         self._wire = out
         return out
 
+    def dropped_by_duplicate_guard(self) -> set:
+        """(bytes, arrival ms) of the datagrams the listener's documented duplicate guard drops unseen: byte-identical to the last
+        datagram *handled* on that socket less than a second before (a query with a QU question is let through)."""
+        last: Dict[int, Tuple[bytes, float]] = {}
+        dropped = set()
+        for a in self.arrivals:
+            prev = last.get(a['sock'])
+            if prev is not None and prev[0] == a['data'] and a['t_ms'] - 1000 < prev[1]:
+                try:
+                    m = wire.strict_decode_lenient_len(a['data'])
+                except wire.Reject:
+                    m = None
+                if m is None or m['flags'] & 0x8000 or not any(q_['cls'] & 0x8000 for q_ in m['qd']):
+                    dropped.add((a['data'], a['t_ms']))
+                    continue
+            last[a['sock']] = (a['data'], a['t_ms'])
+        return dropped
+
     def last_wire_sighting(self, ident: Tuple, before_g: int) -> Optional[Tuple[float, float, int]]:
         best = None
         for s in self.wire_sightings().get(ident, []):
